@@ -392,7 +392,7 @@ func runR143(c *core.Ctx) {
 			return (isSubject(be.X) && core.ConstOf(inf, be.Y) != nil) || (isSubject(be.Y) && core.ConstOf(inf, be.X) != nil)
 		}
 		var badOuter, badPart token.Pos
-		core.NewFlow(c.M, inf, fd.Body).Run(&core.Automaton{
+		core.NewFlow(c.M, inf, fd.Body).Run(core.TrackVals(inf, fd.Body, &core.Automaton{
 			Block: func(st int, b *cfg.Block) int {
 				if b.Stmt != partLoop {
 					return st
@@ -413,7 +413,7 @@ func runR143(c *core.Ctx) {
 				if isParse(n) {
 					st = (st | sD) &^ sM
 				}
-				if isCTGet(n) {
+				if isCTGet(n) && n.Pos() >= partLoop.Pos() && n.End() <= partLoop.End() {
 					st = (st | sI) &^ sC
 				}
 				if r, ok := n.(*ast.ReturnStmt); ok && !isErrRet(r) {
@@ -437,7 +437,7 @@ func runR143(c *core.Ctx) {
 				}
 				return st, true
 			},
-		})
+		}))
 		c.Check(badOuter == 0, rel, "DecodeTunnelledQuery", "an unknown media type of the tunnelled request is rejected", fd.Pos(), "",
 			fmt.Sprintf("the success return at %s is reached without the media type having compared equal to a known one: an unknown content type is silently accepted", c.M.Fset.Position(badOuter)))
 		c.Check(badPart == 0, rel, "DecodeTunnelledQuery", "an unknown content type of a multipart part is rejected", partLoop.Pos(), "",
@@ -502,104 +502,181 @@ func runR144(c *core.Ctx) {
 		c.Unknown(rel, "newRequest", "tunnelling block", fd.Pos(), "EncodeTunnelledQuery is not called")
 		return
 	}
-	var ifs *ast.IfStmt
-	for n := ast.Node(encCall); n != nil; n = par[n] {
-		if x, ok := n.(*ast.IfStmt); ok {
-			ifs = x
-			break
-		}
-	}
-	if ifs == nil {
-		c.Bad(rel, "newRequest", "tunnelling is guarded by the threshold", encCall.Pos(), "EncodeTunnelledQuery is called unconditionally")
-		return
-	}
-	facts := core.Decompose(ifs.Cond, true, nil)
+	encStmt := core.EnclosingStmt(par, encCall)
 	isThreshold := func(e ast.Expr) bool {
 		fv, ok := core.ObjOf(inf, e).(*types.Var)
 		return ok && fv.IsField() && core.NameOf(fv) == "QueryTunnellingThreshold"
+	}
+	isRawQuery := func(e ast.Expr) bool {
+		fv, ok := core.ObjOf(inf, e).(*types.Var)
+		return ok && fv.IsField() && core.NameOf(fv) == "RawQuery"
 	}
 	isLenRawQuery := func(e ast.Expr) bool {
 		call, ok := core.Unparen(e).(*ast.CallExpr)
 		if !ok || len(call.Args) != 1 {
 			return false
 		}
-		id, ok := core.Unparen(call.Fun).(*ast.Ident)
-		if !ok || id.Name != "len" {
+		if b, ok := core.ObjOf(inf, call.Fun).(*types.Builtin); !ok || b.Name() != "len" {
 			return false
 		}
-		fv, ok := core.ObjOf(inf, call.Args[0]).(*types.Var)
-		return ok && fv.IsField() && core.NameOf(fv) == "RawQuery"
+		return isRawQuery(call.Args[0])
 	}
-	positive, above := false, false
-	extra := 0
-	for _, f := range facts {
-		be, ok := core.Unparen(f.Expr).(*ast.BinaryExpr)
-		if !ok || !f.Val {
-			extra++
-			continue
+	// a comparison fact in the form  l > r  /  l >= r  (a false `<=` is a true `>`, and so on)
+	norm := func(f core.Fact) (l, r ast.Expr, op token.Token, ok bool) {
+		be, isBin := core.Unparen(f.Expr).(*ast.BinaryExpr)
+		if !isBin {
+			return nil, nil, 0, false
 		}
-		l, r, op := be.X, be.Y, be.Op
-		if op == token.LSS || op == token.LEQ {
-			l, r = r, l
-			if op == token.LSS {
-				op = token.GTR
-			} else {
+		l, r, op = be.X, be.Y, be.Op
+		if !f.Val {
+			switch op {
+			case token.LSS:
 				op = token.GEQ
+			case token.LEQ:
+				op = token.GTR
+			case token.GTR:
+				op = token.LEQ
+			case token.GEQ:
+				op = token.LSS
+			default:
+				return nil, nil, 0, false
 			}
 		}
-		switch {
-		case op == token.GTR && isThreshold(l) && core.ConstOf(inf, r) != nil && core.ConstOf(inf, r).ExactString() == "0":
-			positive = true
-		case op == token.GTR && isLenRawQuery(l) && isThreshold(r):
-			above = true
+		switch op {
+		case token.LSS:
+			l, r, op = r, l, token.GTR
+		case token.LEQ:
+			l, r, op = r, l, token.GEQ
+		}
+		return l, r, op, op == token.GTR || op == token.GEQ
+	}
+	isPositive := func(f core.Fact) bool {
+		l, r, op, ok := norm(f)
+		if !ok || !isThreshold(l) {
+			return false
+		}
+		cv := core.ConstOf(inf, r)
+		return cv != nil && ((op == token.GTR && cv.ExactString() == "0") || (op == token.GEQ && cv.ExactString() == "1"))
+	}
+	isAbove := func(f core.Fact) bool {
+		l, r, op, ok := norm(f)
+		return ok && op == token.GTR && isLenRawQuery(l) && isThreshold(r)
+	}
+	positive := core.GuardedByFact(inf, par, encStmt, isPositive, nil)
+	above := core.GuardedByFact(inf, par, encStmt, isAbove, nil)
+	// the conditions of the if statements the call sits in contribute nothing else
+	extra, gates := []string{}, 0
+	for n, child := par[ast.Node(encStmt)], ast.Node(encStmt); n != nil; child, n = n, par[n] {
+		ifs, ok := n.(*ast.IfStmt)
+		if !ok {
+			continue
+		}
+		var facts []core.Fact
+		switch child {
+		case ast.Node(ifs.Body):
+			facts = core.Decompose(ifs.Cond, true, nil)
+		case ifs.Else:
+			facts = core.Decompose(ifs.Cond, false, nil)
 		default:
-			extra++
+			continue
+		}
+		gates++
+		if len(facts) == 0 {
+			extra = append(extra, core.ExprString(ifs.Cond)+" (not a conjunction on this branch)")
+		}
+		for _, f := range facts {
+			if !isPositive(f) && !isAbove(f) {
+				extra = append(extra, core.ExprString(f.Expr))
+			}
 		}
 	}
-	c.Check(positive, rel, "newRequest", "tunnelling requires threshold > 0", ifs.Pos(), "", "the condition "+core.ExprString(ifs.Cond)+" does not require a positive threshold")
-	c.Check(above, rel, "newRequest", "tunnelling requires len(RawQuery) > threshold (strict)", ifs.Pos(), "", "the condition "+core.ExprString(ifs.Cond)+" is not the strict comparison of the raw query length with the threshold")
-	c.Check(extra == 0 && len(facts) == 2, rel, "newRequest", "no other condition gates tunnelling", ifs.Pos(), "", "the guard has additional or disjunctive conditions: "+core.ExprString(ifs.Cond))
-	// inside: verb := POST, RawQuery = "", encoder gets the verb parameter
+	c.Check(positive, rel, "newRequest", "tunnelling requires threshold > 0", encCall.Pos(), "", "the tunnelling call is not guarded by a positive threshold")
+	c.Check(above, rel, "newRequest", "tunnelling requires len(RawQuery) > threshold (strict)", encCall.Pos(), "", "the tunnelling call is not guarded by the strict comparison of the raw query length with the threshold")
+	c.Check(len(extra) == 0 && gates > 0, rel, "newRequest", "no other condition gates tunnelling", encCall.Pos(), "", "the guard has additional or disjunctive conditions: "+strings.Join(extra, "; "))
+	// on the control flow graph: the encoder receives the caller's verb; on every path through it the verb then becomes
+	// POST and the URL query is cleared before the request is built; on paths around it neither is touched
 	var verbParam types.Object
 	if len(encCall.Args) == 3 {
 		verbParam = core.ObjOf(inf, encCall.Args[0])
 	}
-	post, cleared := false, false
-	for _, s := range ifs.Body.List {
-		if as, ok := s.(*ast.AssignStmt); ok && len(as.Lhs) == 1 && len(as.Rhs) == 1 {
-			if core.ObjOf(inf, as.Lhs[0]) == verbParam && verbParam != nil {
-				if cv := core.ConstOf(inf, as.Rhs[0]); cv != nil && cv.ExactString() == `"POST"` && as.Pos() > encCall.End() {
-					post = true
-				}
-			}
-			if fv, ok := core.ObjOf(inf, as.Lhs[0]).(*types.Var); ok && fv.IsField() && core.NameOf(fv) == "RawQuery" {
-				if cv := core.ConstOf(inf, as.Rhs[0]); cv != nil && cv.ExactString() == `""` {
-					cleared = true
-				}
-			}
+	const (
+		sEnc = 1 << iota
+		sPost
+		sCleared
+		sTouched
+	)
+	post, cleared, outside := "", "", ""
+	set := func(dst *string, msg string) {
+		if *dst == "" {
+			*dst = msg
 		}
 	}
-	c.Check(verbParam != nil && isParamOf(inf, fd, asVar(verbParam)) && post, rel, "newRequest", "the encoder receives the original verb, which then becomes POST", ifs.Pos(), "", "the verb passed to EncodeTunnelledQuery is not the caller's verb, or it is not replaced by POST afterwards")
-	c.Check(cleared, rel, "newRequest", "the URL query is cleared when tunnelled", ifs.Pos(), "", "RawQuery is not cleared inside the tunnelling block")
-	// outside the block: no assignment to the verb or RawQuery
-	outside := true
-	ast.Inspect(fd.Body, func(n ast.Node) bool {
-		if n == ast.Node(ifs) {
-			return false
+	isBuild := func(call *ast.CallExpr) bool {
+		f := core.Callee(inf, call)
+		return core.IsFunc(f, "net/http", "NewRequestWithContext") || core.IsFunc(f, "net/http", "NewRequest")
+	}
+	check := func(st int, where token.Pos) {
+		if st&sEnc != 0 {
+			if st&sPost == 0 {
+				set(&post, "the verb is not replaced by POST after EncodeTunnelledQuery on the path reaching "+c.M.Position(where))
+			}
+			if st&sCleared == 0 {
+				set(&cleared, "RawQuery is not cleared after EncodeTunnelledQuery on the path reaching "+c.M.Position(where))
+			}
+		} else if st&sTouched != 0 {
+			set(&outside, "the verb or RawQuery is assigned on a path that does not tunnel, reaching "+c.M.Position(where))
 		}
-		if as, ok := n.(*ast.AssignStmt); ok {
-			for _, l := range as.Lhs {
-				if core.ObjOf(inf, l) == verbParam && verbParam != nil {
-					outside = false
+	}
+	built := false
+	core.NewFlow(c.M, inf, fd.Body).Run(&core.Automaton{
+		AtEnd: true,
+		Node: func(st int, n ast.Node) int {
+			hasEnc := false
+			for _, call := range core.CallsIn(n) {
+				if call == encCall {
+					hasEnc = true
 				}
-				if fv, ok := core.ObjOf(inf, l).(*types.Var); ok && fv.IsField() && core.NameOf(fv) == "RawQuery" {
-					outside = false
+				if isBuild(call) {
+					built = true
+					check(st, call.Pos())
 				}
 			}
-		}
-		return true
+			if hasEnc {
+				st = sEnc
+			}
+			if as, ok := n.(*ast.AssignStmt); ok && !hasEnc {
+				for i, l := range as.Lhs {
+					var rhs ast.Expr
+					if len(as.Lhs) == len(as.Rhs) {
+						rhs = as.Rhs[i]
+					}
+					switch {
+					case verbParam != nil && core.ObjOf(inf, l) == verbParam:
+						if cv := core.ConstOf(inf, rhs); rhs != nil && cv != nil && cv.ExactString() == `"POST"` && st&sEnc != 0 {
+							st |= sPost
+						} else {
+							st |= sTouched
+							st &^= sPost
+						}
+					case isRawQuery(l):
+						if cv := core.ConstOf(inf, rhs); rhs != nil && cv != nil && cv.ExactString() == `""` && st&sEnc != 0 {
+							st |= sCleared
+						} else {
+							st |= sTouched
+							st &^= sCleared
+						}
+					}
+				}
+			}
+			if r, ok := n.(*ast.ReturnStmt); ok && !built {
+				check(st, r.Pos())
+			}
+			return st
+		},
 	})
-	c.Check(outside, rel, "newRequest", "verb and query are untouched outside the tunnelling block", fd.Pos(), "", "the verb or RawQuery is assigned outside the threshold guard")
+	c.Check(verbParam != nil && isParamOf(inf, fd, asVar(verbParam)) && post == "", rel, "newRequest", "the encoder receives the original verb, which then becomes POST", encCall.Pos(), "", "the verb passed to EncodeTunnelledQuery is not the caller's verb; "+post)
+	c.Check(cleared == "", rel, "newRequest", "the URL query is cleared when tunnelled", encCall.Pos(), "", cleared)
+	c.Check(outside == "", rel, "newRequest", "verb and query are untouched outside the tunnelling block", fd.Pos(), "", outside)
 }
 
 func runR033(c *core.Ctx) {
